@@ -296,12 +296,7 @@ ATTEMPT_S = 90
 
 def _fresh_model():
     """an attempt that was interrupted inside model().call leaves the line protocol one reply out of step: start a new process"""
-    try:
-        if driver._model is not None:
-            driver._model.p.kill()
-    except Exception:
-        pass
-    driver.reset_after_fork()
+    driver.discard()
 
 
 def robust(check):
